@@ -410,6 +410,13 @@ class C13(Suite):
         # 5. proxy and poll
         yield from self.proxy_cases(tier, rng)
 
+    def search_cases(self, tier, rng):
+        """failing-input search: a fresh quick-sized draw (run in-process, the time limit applies between cases)"""
+        self.precomputed = {}
+        yield from self.script_cases("quick", rng)
+        yield from self.relay_cases("quick", rng)
+        yield from self.proxy_cases("quick", rng)
+
     def precompute(self, cases):
         jobs = int(os.environ.get("C13_JOBS", "0") or 0) or max(1, min(6, (os.cpu_count() or 2) // 2))
         self.precomputed = {}
